@@ -23,7 +23,7 @@ RULE = ('Fault sequences: the command spec maps token-hash classes of the candid
         'reported only with a process-table witness (main alive past the bound and a '
         'command child older than 10 x its limit).  (iii) --match-out/--match-err '
         'absent from the golden stream: status 1, no output file, command executed '
-        'once.  (iv) default limits: with no --timeout/--timeout-cc each command\'s limit is '
+        'once.  (iv) default limits: each of --timeout/--timeout-cc that is not given (the other one may be) is '
         '1.5 x (its own golden run time + 1 s).  Non-trivial: a run in which candidates of >= 2 different fault classes '
         'were executed; distinct = distinct case.')
 ASSUMPTIONS = [
@@ -154,8 +154,10 @@ def default_limits(dd, ctx, acc):
     infile = os.path.join(wd, 'limits-in.smt2')
     with open(infile, 'w') as f:
         f.write('(assert true)\n')
-    for main_ms, cc_ms in ((0, 700), (700, 0), (300, 300)):
-        case = dict(kind='limits', main_ms=main_ms, cc_ms=cc_ms)
+    # (golden run time of the command, of the cross check, --timeout given?, --timeout-cc given?)
+    for main_ms, cc_ms, given, given_cc in ((0, 700, None, None), (700, 0, None, None), (300, 300, None, None),
+                                            (0, 400, 7.5, None), (400, 0, None, 6.5), (0, 0, 7.5, 6.5)):
+        case = dict(kind='limits', main_ms=main_ms, cc_ms=cc_ms, timeout=given, timeout_cc=given_cc)
         specs = []
         for role, ms in (('main', main_ms), ('cc', cc_ms)):
             sp = dict(pred=['true'], T=[0, 'ok\n', ''], F=[1, '', ''], delay=[0, [ms]])
@@ -163,12 +165,18 @@ def default_limits(dd, ctx, acc):
         log = os.path.join(wd, 'limits.log')
         cmd = vspec.cmdline(specs[0], log, 'main')
         cmd_cc = vspec.cmdline(specs[1], log, 'cc')
-        env.set_options(dd, ['-c', ' '.join(cmd_cc), infile, os.path.join(wd, 'limits-out.smt2')] + cmd)
+        env.set_options(dd, (['--timeout', str(given)] if given else []) + (['--timeout-cc', str(given_cc)] if given_cc else [])
+                        + ['-c', ' '.join(cmd_cc), infile, os.path.join(wd, 'limits-out.smt2')] + cmd)
         dd.tmpfiles.init()
         dd.tmpfiles.copy_binaries()
         dd.checker.do_golden_runs()
         a = dd.options.args()
-        for name, got, ms in (('timeout', a.timeout, main_ms), ('timeout_cc', a.timeout_cc, cc_ms)):
+        for name, got, ms, explicit in (('timeout', a.timeout, main_ms, given), ('timeout_cc', a.timeout_cc, cc_ms, given_cc)):
+            if explicit:
+                # a limit the user gave stays as given (whatever the other one is)
+                if got != explicit:
+                    acc.violation(f'explicit-limit/{name}', f'--{name.replace("_", "-")} {explicit} given, in effect: {got}', case)
+                continue
             lo, hi = 1.5 * (ms / 1000 + 1) - 0.01, 1.5 * (ms / 1000 + 1 + 1.5)
             if got is None or not (lo <= got <= hi):
                 acc.violation(f'default-limit/{name}',
